@@ -363,11 +363,9 @@ def descent_and_discovery(project, chk):
                         continue
                     vals = [rhs] if isinstance(rhs, ast.Constant) else list(getattr(rhs, "elts", []) or [])
                     if isinstance(rhs, ast.Name):
-                        from sa.formula import module_value
-                        try:
-                            mv = module_value(project, pnr.module, rhs.id)
-                        except Exception:
-                            mv = None
+                        mv = pnr.module.top_assigns.get(rhs.id)
+                        if isinstance(mv, ast.Call) and mv.args and not mv.keywords and norm_text(mv.func) in ("frozenset", "set", "tuple"):
+                            mv = mv.args[0]
                         vals = list(getattr(mv, "elts", []) or []) if mv is not None else []
                     names = {x.value for x in vals if isinstance(x, ast.Constant) and isinstance(x.value, str)}
                     if names and len(names) == len(vals):
@@ -379,16 +377,6 @@ def descent_and_discovery(project, chk):
                                    f"({'guard admits ' + str(sorted(good - GROUP_RULES)) if good else 'no at-keyword test dominates the call'}): the declarations of @font-face / @page / @keyframes blocks are re-parsed as rules and rewritten"))
     chk.floor("re-parses of an at-rule's content as rules", n, 1)
 
-    chk.rule("Q6", "directory discovery never yields the command's own outputs: otherwise a second run writes <name>_cm_cm.css next to the inputs (something besides <name>_cm.css is created)")
-    from sa.report import Check as _Check
-    import checks.C18 as _c18
-    sub = _Check("C18", chk.tier, quiet=True)
-    try:
-        _c18.run(project, sub)
-    except AnalysisError:
-        pass
-    hits = [f for f in sub.findings if f.rule == "I3" and "own outputs" in f.message]
-    for f in hits:
-        chk.fail("Q6", f.function, f.construct, f.loc, f.message)
-    if not hits:
-        chk.ok("Q6", "cli.main.get_css_files", "directory-mode yields are under the `_cm` output filter", "C18 I3 (writer's infix == reader's filter)")
+    from checks._borrow import borrow
+    borrow(project, chk, "C18", {"I3"}, "Q6", "directory discovery never yields the command's own outputs: otherwise a second run writes <name>_cm_cm.css next to the inputs (something besides <name>_cm.css is created)",
+           only=lambda f: "own outputs" in f.message)
